@@ -44,8 +44,20 @@ def run(run):
             sc += "Reset\nWalk %d -1 0\n" % (4 + i)
             sc += {1: "D 1\n", 3: "D 1\nD 3\n", 2: "D 2\n"}[st]
             sc += "Hold %d %d\nWalk 13 1 3\nWalk 40 -1 0\nHold 0 5\nWalk 9 1 2\n" % (st, n if st == 3 or n < 70000 else 400)
+    # the counts are read only now and then: rests on clicks that are multiples of 256 / 16384 go unread, the first read comes
+    # part-way through the next click (or several clicks later)
+    for clicks in (255, 256, 257, 512, 16383, 16384, 16385):
+        for back in (1, 2, 3, 5):
+            for d in (1, -1):
+                sc += "Reset\nQWalk %d %d\nQWalk %d %d\nWalk 6 %d 0\n" % (4 * clicks, d, back, -d, d)
     sc += "Reset\nRandom %d %d\n" % (run.seed, 600000 if run.thorough() else 60000)
     tr = exec_script(run, exe, [], sc, run.path("walk.ndjson"), "walks", timeout=600)
     check_trace(run, "walks", "TraceRotenc", "TraceRotenc.cfg", tr, timeout=1500)
+    # builds for size and release-style builds compile other code paths where a source has them: a reduced set of walks each
+    for tag, flags in (("os", ["-Os", "-DNDEBUG"]), ("rel", ALT_FLAGS)):
+        exe2 = build_driver(run, "rotenc_drv_" + tag, "rotenc_drv.c", ["librfn/rotenc.c"], extra_flags=flags)
+        sc2 = "Reset\nWalk 1700 1 5\nWalk 1400 -1 2\nReset\nD 3\nD 0\nD 3\nD 1\nD 2\nD 0\nWalk 40 1 5\nReset\nRandom %d 20000\n" % (run.seed + 9)
+        tr2 = exec_script(run, exe2, [], sc2, run.path("walk-%s.ndjson" % tag), "walks-" + tag, timeout=300)
+        check_trace(run, "walks-" + tag, "TraceRotenc", "TraceRotenc.cfg", tr2, timeout=600)
     count_event_cases(run, tr)
     sample_trace(run, tr, 12)
